@@ -333,7 +333,7 @@ fn main() {
          lattice cluster with two outliers, jittered cloud, exact line, noisy line, sine curve, duplicated abscissae with conflicting targets) \
          x n in {:?}; kernels linear, Gaussian(0.5), Gaussian(5), polynomial (0,2), (1,3); C-SVC: C in {{.01,1,100}} x class weights (1,1),(1,10),(10,1); \
          nu-SVC / one-class: nu in {{.1,.5,1}}; eps-SVR: C in {{.01,1,100}} x eps_loss in {{.1,.5}}; nu-SVR: nu in {{.1,.5,1}} x C in {{.01,1,100}}; \
-         solver eps in {{1e-3,1e-7}}; f32 and f64 (f32 with eps 1e-7, a threshold below the resolution of f32 that runs into the 10^7 iteration cap, only on the n=8 datasets in the thorough tier). Every case is fitted with shrinking off and on (classification additionally as Svm<_,Pr>), \
+         solver eps in {{1e-3,1e-7}}; f32 and f64; members whose eps is below 8 ulp (of the float type) of max(max U * max|K|, max|p|) cannot resolve the stopping rule and are run only in the thorough tier for a small family (n=8, f32, eps 1e-7, linear / Gaussian(.5), one parameter point per problem type) that exercises the iteration cap; nu-SVR with C=100 only in the thorough tier. Every case is fitted with shrinking off and on (classification additionally as Svm<_,Pr>), \
          every fit is one evaluation; non-trivial = the model has at least one non-zero coefficient and the solver made at least one iteration; \
          the whole Cartesian product is run (count asserted).",
         sizes
@@ -356,7 +356,7 @@ fn main() {
     let floats = ["f64", "f32"];
     let mut cases: Vec<Case> = Vec::new();
     let thorough = ctx.thorough();
-    let mut skipped_f32_small_eps = 0u64;
+    let mut below_resolution = 0u64;
     for d in &cat {
         let mut problems: Vec<Problem> = Vec::new();
         match d.kind {
@@ -383,20 +383,49 @@ fn main() {
                 }
                 for &nu in &nus {
                     for &c in &cs {
+                        // nu-SVR with C = 100 converges very slowly on the smooth kernels: thorough tier only
+                        if c > 10.0 && !thorough {
+                            continue;
+                        }
                         problems.push(Problem::NuSvr { nu, c });
                     }
                 }
             }
         }
+        let ymax = d.targets.iter().fold(0.0f64, |m, t| m.max(t.abs()));
         for k in &kernels {
+            let kmax = d.x.iter().map(|a| d.x.iter().map(|b| oracle::kern(k, a, b).abs()).fold(0.0, f64::max)).fold(0.0, f64::max);
             for p in &problems {
                 for &e in &solver_eps {
                     for f in floats {
-                        // a stopping threshold below the resolution of f32 cannot be reached: such fits run
-                        // into the 10^7 iteration cap (about a minute each). Quick: not run; thorough: only the
-                        // smallest datasets, to exercise the `ReachedIterations` exit.
-                        if f == "f32" && e < 1e-6 && !(thorough && d.x.len() == 8 && *k != Kern::Poly(1.0, 3.0) && *k != Kern::Gaussian(5.0)) {
-                            skipped_f32_small_eps += 1;
+                        // Domain filter (float resolution): the stopping rule compares gradient differences with
+                        // eps; gradients are p_i plus sums of terms U_j*K_ij, so a threshold below 8 ulp of the largest
+                        // single term cannot be resolved in that float type and the fit runs into the 10^7
+                        // iteration cap (about a minute each). Quick: not run; thorough: a small n=8 family only,
+                        // to exercise the `ReachedIterations` exit.
+                        let em = if f == "f32" { f32::EPSILON as f64 } else { f64::EPSILON };
+                        let umax = match p {
+                            Problem::CSvc { c_pos, c_neg } => c_pos.max(*c_neg),
+                            Problem::EpsSvr { c, .. } | Problem::NuSvr { c, .. } => *c,
+                            _ => 1.0,
+                        };
+                        let cap_family = thorough
+                            && d.x.len() == 8
+                            && f == "f32"
+                            && e < 1e-6
+                            && (*k == Kern::Linear || *k == Kern::Gaussian(0.5))
+                            && matches!(p, Problem::CSvc { c_pos, c_neg } if *c_pos == 1.0 && *c_neg == 1.0)
+                                | matches!(p, Problem::NuSvc { nu } | Problem::OneClass { nu } if *nu == 0.5)
+                                | matches!(p, Problem::EpsSvr { c, eps_loss } if *c == 1.0 && *eps_loss == 0.1)
+                                | matches!(p, Problem::NuSvr { nu, c } if *nu == 0.5 && *c == 1.0);
+                        let pmax = match p {
+                            Problem::CSvc { .. } => 1.0,
+                            Problem::EpsSvr { eps_loss, .. } => eps_loss + ymax,
+                            Problem::NuSvr { .. } => ymax,
+                            _ => 0.0,
+                        };
+                        if e < 8.0 * em * (umax * kmax).max(pmax) && !cap_family {
+                            below_resolution += 1;
                             continue;
                         }
                         cases.push(Case {
@@ -419,7 +448,7 @@ fn main() {
     cases.sort_by_key(|c| std::cmp::Reverse(c.x.len()));
     ctx.extra("datasets", json!(cat.len()));
     ctx.extra("cases_enumerated", json!(cases.len()));
-    ctx.extra("cases_f32_with_eps_1e-7_excluded_by_domain_filter", json!(skipped_f32_small_eps));
+    ctx.extra("cases_with_eps_below_float_resolution_excluded_by_domain_filter", json!(below_resolution));
 
     let trace = std::env::var("VERIF_C13_TRACE").is_ok();
     let done = AtomicU64::new(0);
